@@ -5,9 +5,16 @@
 // A *type lineage* is one logical error type that has had several names over
 // time: name0 (original) -> name1 -> name2 -> name3. A Go type cannot be
 // renamed at run time, so every name is modelled by a distinct Go type of
-// this package (LeafV0..LeafV3, WrapV0..WrapV3), plus one "differently
-// renamed" type (LeafAlt, WrapAlt: another new name for name0) and one
-// unrelated lineage (ULeaf0 -> ULeaf1, UWrap0 -> UWrap1).
+// this package (LeafV0..LeafV3, WrapV0..WrapV3, MultiV0..MultiV3), plus one
+// "differently renamed" type (LeafAlt, ...: another new name for name0) and
+// one unrelated lineage (ULeaf0 -> ULeaf1, ...). Generic lineages
+// (GLeafV0[P] -> GLeafV1[P], GWrapV0[P] -> GWrapV1[P]) are instantiated with
+// a built-in type argument, a named type of this package and a pointer to
+// it: their reflected names contain brackets and, for the last two, an
+// import path.
+//
+// Every type has a field Code that Error() does not show: it only crosses
+// the wire in the payload of a custom encoder.
 //
 // A *process* (a "code version") is a configuration of the library's
 // process-global registries: which Go type stands for the lineage in that
@@ -21,133 +28,364 @@ import (
 	"reflect"
 )
 
+// fielder gives the custom encoders access to what they put in the payload.
+type fielder interface{ fields() (msg, code string) }
+
 // ---- leaf lineage T: four successive names, one alternative rename ----
 
-type LeafV0 struct{ Msg string }
-type LeafV1 struct{ Msg string }
-type LeafV2 struct{ Msg string }
-type LeafV3 struct{ Msg string }
-type LeafAlt struct{ Msg string }
+type LeafV0 struct{ Msg, Code string }
 
-func (e *LeafV0) Error() string  { return e.Msg }
-func (e *LeafV1) Error() string  { return e.Msg }
-func (e *LeafV2) Error() string  { return e.Msg }
-func (e *LeafV3) Error() string  { return e.Msg }
-func (e *LeafAlt) Error() string { return e.Msg }
+func (e *LeafV0) Error() string            { return e.Msg }
+func (e *LeafV0) fields() (string, string) { return e.Msg, e.Code }
+
+type LeafV1 struct{ Msg, Code string }
+
+func (e *LeafV1) Error() string            { return e.Msg }
+func (e *LeafV1) fields() (string, string) { return e.Msg, e.Code }
+
+type LeafV2 struct{ Msg, Code string }
+
+func (e *LeafV2) Error() string            { return e.Msg }
+func (e *LeafV2) fields() (string, string) { return e.Msg, e.Code }
+
+type LeafV3 struct{ Msg, Code string }
+
+func (e *LeafV3) Error() string            { return e.Msg }
+func (e *LeafV3) fields() (string, string) { return e.Msg, e.Code }
+
+type LeafAlt struct{ Msg, Code string }
+
+func (e *LeafAlt) Error() string            { return e.Msg }
+func (e *LeafAlt) fields() (string, string) { return e.Msg, e.Code }
 
 // ---- wrapper lineage T ----
 
 type WrapV0 struct {
-	Msg   string
-	Cause error
+	Msg, Code string
+	Cause     error
 }
+
+func (e *WrapV0) Error() string            { return e.Msg + ": " + e.Cause.Error() }
+func (e *WrapV0) Unwrap() error            { return e.Cause }
+func (e *WrapV0) fields() (string, string) { return e.Msg, e.Code }
+
 type WrapV1 struct {
-	Msg   string
-	Cause error
+	Msg, Code string
+	Cause     error
 }
+
+func (e *WrapV1) Error() string            { return e.Msg + ": " + e.Cause.Error() }
+func (e *WrapV1) Unwrap() error            { return e.Cause }
+func (e *WrapV1) fields() (string, string) { return e.Msg, e.Code }
+
 type WrapV2 struct {
-	Msg   string
-	Cause error
+	Msg, Code string
+	Cause     error
 }
+
+func (e *WrapV2) Error() string            { return e.Msg + ": " + e.Cause.Error() }
+func (e *WrapV2) Unwrap() error            { return e.Cause }
+func (e *WrapV2) fields() (string, string) { return e.Msg, e.Code }
+
 type WrapV3 struct {
-	Msg   string
-	Cause error
+	Msg, Code string
+	Cause     error
 }
+
+func (e *WrapV3) Error() string            { return e.Msg + ": " + e.Cause.Error() }
+func (e *WrapV3) Unwrap() error            { return e.Cause }
+func (e *WrapV3) fields() (string, string) { return e.Msg, e.Code }
+
 type WrapAlt struct {
-	Msg   string
-	Cause error
+	Msg, Code string
+	Cause     error
 }
 
-func (e *WrapV0) Error() string  { return e.Msg + ": " + e.Cause.Error() }
-func (e *WrapV1) Error() string  { return e.Msg + ": " + e.Cause.Error() }
-func (e *WrapV2) Error() string  { return e.Msg + ": " + e.Cause.Error() }
-func (e *WrapV3) Error() string  { return e.Msg + ": " + e.Cause.Error() }
-func (e *WrapAlt) Error() string { return e.Msg + ": " + e.Cause.Error() }
+func (e *WrapAlt) Error() string            { return e.Msg + ": " + e.Cause.Error() }
+func (e *WrapAlt) Unwrap() error            { return e.Cause }
+func (e *WrapAlt) fields() (string, string) { return e.Msg, e.Code }
 
-func (e *WrapV0) Unwrap() error  { return e.Cause }
-func (e *WrapV1) Unwrap() error  { return e.Cause }
-func (e *WrapV2) Unwrap() error  { return e.Cause }
-func (e *WrapV3) Unwrap() error  { return e.Cause }
-func (e *WrapAlt) Unwrap() error { return e.Cause }
+// ---- multi-cause lineage T ----
 
-func (e *WrapV0) prefix() string  { return e.Msg }
-func (e *WrapV1) prefix() string  { return e.Msg }
-func (e *WrapV2) prefix() string  { return e.Msg }
-func (e *WrapV3) prefix() string  { return e.Msg }
-func (e *WrapAlt) prefix() string { return e.Msg }
+type MultiV0 struct {
+	Msg, Code string
+	Causes    []error
+}
+
+func (e *MultiV0) Error() string            { return e.Msg }
+func (e *MultiV0) Unwrap() []error          { return e.Causes }
+func (e *MultiV0) fields() (string, string) { return e.Msg, e.Code }
+
+type MultiV1 struct {
+	Msg, Code string
+	Causes    []error
+}
+
+func (e *MultiV1) Error() string            { return e.Msg }
+func (e *MultiV1) Unwrap() []error          { return e.Causes }
+func (e *MultiV1) fields() (string, string) { return e.Msg, e.Code }
+
+type MultiV2 struct {
+	Msg, Code string
+	Causes    []error
+}
+
+func (e *MultiV2) Error() string            { return e.Msg }
+func (e *MultiV2) Unwrap() []error          { return e.Causes }
+func (e *MultiV2) fields() (string, string) { return e.Msg, e.Code }
+
+type MultiV3 struct {
+	Msg, Code string
+	Causes    []error
+}
+
+func (e *MultiV3) Error() string            { return e.Msg }
+func (e *MultiV3) Unwrap() []error          { return e.Causes }
+func (e *MultiV3) fields() (string, string) { return e.Msg, e.Code }
+
+type MultiAlt struct {
+	Msg, Code string
+	Causes    []error
+}
+
+func (e *MultiAlt) Error() string            { return e.Msg }
+func (e *MultiAlt) Unwrap() []error          { return e.Causes }
+func (e *MultiAlt) fields() (string, string) { return e.Msg, e.Code }
 
 // ---- unrelated lineage U (renamed once) ----
 
-type ULeaf0 struct{ Msg string }
-type ULeaf1 struct{ Msg string }
+type ULeaf0 struct{ Msg, Code string }
 
-func (e *ULeaf0) Error() string { return e.Msg }
-func (e *ULeaf1) Error() string { return e.Msg }
+func (e *ULeaf0) Error() string            { return e.Msg }
+func (e *ULeaf0) fields() (string, string) { return e.Msg, e.Code }
 
 type UWrap0 struct {
-	Msg   string
-	Cause error
+	Msg, Code string
+	Cause     error
 }
+
+func (e *UWrap0) Error() string            { return e.Msg + ": " + e.Cause.Error() }
+func (e *UWrap0) Unwrap() error            { return e.Cause }
+func (e *UWrap0) fields() (string, string) { return e.Msg, e.Code }
+
+type UMulti0 struct {
+	Msg, Code string
+	Causes    []error
+}
+
+func (e *UMulti0) Error() string            { return e.Msg }
+func (e *UMulti0) Unwrap() []error          { return e.Causes }
+func (e *UMulti0) fields() (string, string) { return e.Msg, e.Code }
+
+type ULeaf1 struct{ Msg, Code string }
+
+func (e *ULeaf1) Error() string            { return e.Msg }
+func (e *ULeaf1) fields() (string, string) { return e.Msg, e.Code }
+
 type UWrap1 struct {
-	Msg   string
-	Cause error
+	Msg, Code string
+	Cause     error
 }
 
-func (e *UWrap0) Error() string  { return e.Msg + ": " + e.Cause.Error() }
-func (e *UWrap1) Error() string  { return e.Msg + ": " + e.Cause.Error() }
-func (e *UWrap0) Unwrap() error  { return e.Cause }
-func (e *UWrap1) Unwrap() error  { return e.Cause }
-func (e *UWrap0) prefix() string { return e.Msg }
-func (e *UWrap1) prefix() string { return e.Msg }
+func (e *UWrap1) Error() string            { return e.Msg + ": " + e.Cause.Error() }
+func (e *UWrap1) Unwrap() error            { return e.Cause }
+func (e *UWrap1) fields() (string, string) { return e.Msg, e.Code }
 
-type prefixer interface{ prefix() string }
+type UMulti1 struct {
+	Msg, Code string
+	Causes    []error
+}
+
+func (e *UMulti1) Error() string            { return e.Msg }
+func (e *UMulti1) Unwrap() []error          { return e.Causes }
+func (e *UMulti1) fields() (string, string) { return e.Msg, e.Code }
+
+// ---- generic lineages (renamed once) ----
+
+// Payload is a named type of this package used as a type argument.
+type Payload struct{ N int }
+
+type GLeafV0[P any] struct {
+	Msg, Code string
+	Arg       P
+}
+
+func (e *GLeafV0[P]) Error() string            { return e.Msg }
+func (e *GLeafV0[P]) fields() (string, string) { return e.Msg, e.Code }
+
+type GWrapV0[P any] struct {
+	Msg, Code string
+	Cause     error
+	Arg       P
+}
+
+func (e *GWrapV0[P]) Error() string            { return e.Msg + ": " + e.Cause.Error() }
+func (e *GWrapV0[P]) Unwrap() error            { return e.Cause }
+func (e *GWrapV0[P]) fields() (string, string) { return e.Msg, e.Code }
+
+type GLeafV1[P any] struct {
+	Msg, Code string
+	Arg       P
+}
+
+func (e *GLeafV1[P]) Error() string            { return e.Msg }
+func (e *GLeafV1[P]) fields() (string, string) { return e.Msg, e.Code }
+
+type GWrapV1[P any] struct {
+	Msg, Code string
+	Cause     error
+	Arg       P
+}
+
+func (e *GWrapV1[P]) Error() string            { return e.Msg + ": " + e.Cause.Error() }
+func (e *GWrapV1[P]) Unwrap() error            { return e.Cause }
+func (e *GWrapV1[P]) fields() (string, string) { return e.Msg, e.Code }
 
 // version is one name of a lineage: the Go types that carry that name.
 type version struct {
-	label     string
-	leafProto error // typed nil pointer, for registration and reflect
-	wrapProto error
-	newLeaf   func(msg string) error
-	newWrap   func(msg string, cause error) error
+	label      string
+	leafProto  error // typed nil pointers, for registration and reflect
+	wrapProto  error
+	multiProto error // nil: the lineage has no multi-cause type
+	newLeaf    func(msg, code string) error
+	newWrap    func(msg, code string, cause error) error
+	newMulti   func(msg, code string, causes []error) error
 }
 
-func (v *version) leafType() reflect.Type { return reflect.TypeOf(v.leafProto) }
-func (v *version) wrapType() reflect.Type { return reflect.TypeOf(v.wrapProto) }
+func (v *version) leafType() reflect.Type  { return reflect.TypeOf(v.leafProto) }
+func (v *version) wrapType() reflect.Type  { return reflect.TypeOf(v.wrapProto) }
+func (v *version) multiType() reflect.Type { return reflect.TypeOf(v.multiProto) }
 
-// leafName / wrapName are what RegisterTypeMigration wants as
-// previousTypeName: reflect.TypeOf(err).String().
-func (v *version) leafName() string { return v.leafType().String() }
-func (v *version) wrapName() string { return v.wrapType().String() }
+// leafName / wrapName / multiName are what RegisterTypeMigration wants as
+// previousTypeName: reflect.TypeOf(err).String(), exactly what an application
+// would write; pkg is what it wants as previousPkgPath.
+func (v *version) leafName() string  { return v.leafType().String() }
+func (v *version) wrapName() string  { return v.wrapType().String() }
+func (v *version) multiName() string { return v.multiType().String() }
+func (v *version) pkg() string       { return v.leafType().Elem().PkgPath() }
+
+// protos lists the error types of the version with their role.
+func (v *version) protos() []typedProto {
+	ps := []typedProto{{"leaf", v.leafProto}, {"wrap", v.wrapProto}}
+	if v.multiProto != nil {
+		ps = append(ps, typedProto{"multi", v.multiProto})
+	}
+	return ps
+}
+
+type typedProto struct {
+	role  string
+	proto error
+}
+
+func (v *version) typeOf(role string) reflect.Type {
+	switch role {
+	case "wrap":
+		return v.wrapType()
+	case "multi":
+		return v.multiType()
+	}
+	return v.leafType()
+}
 
 // chainT[k] is the k-th name of lineage T.
 var chainT = []*version{
-	{"V0", (*LeafV0)(nil), (*WrapV0)(nil),
-		func(m string) error { return &LeafV0{m} }, func(m string, c error) error { return &WrapV0{m, c} }},
-	{"V1", (*LeafV1)(nil), (*WrapV1)(nil),
-		func(m string) error { return &LeafV1{m} }, func(m string, c error) error { return &WrapV1{m, c} }},
-	{"V2", (*LeafV2)(nil), (*WrapV2)(nil),
-		func(m string) error { return &LeafV2{m} }, func(m string, c error) error { return &WrapV2{m, c} }},
-	{"V3", (*LeafV3)(nil), (*WrapV3)(nil),
-		func(m string) error { return &LeafV3{m} }, func(m string, c error) error { return &WrapV3{m, c} }},
+	{label: "V0", leafProto: (*LeafV0)(nil), wrapProto: (*WrapV0)(nil), multiProto: (*MultiV0)(nil),
+		newLeaf:  func(m, c string) error { return &LeafV0{m, c} },
+		newWrap:  func(m, c string, cause error) error { return &WrapV0{m, c, cause} },
+		newMulti: func(m, c string, causes []error) error { return &MultiV0{m, c, causes} }},
+	{label: "V1", leafProto: (*LeafV1)(nil), wrapProto: (*WrapV1)(nil), multiProto: (*MultiV1)(nil),
+		newLeaf:  func(m, c string) error { return &LeafV1{m, c} },
+		newWrap:  func(m, c string, cause error) error { return &WrapV1{m, c, cause} },
+		newMulti: func(m, c string, causes []error) error { return &MultiV1{m, c, causes} }},
+	{label: "V2", leafProto: (*LeafV2)(nil), wrapProto: (*WrapV2)(nil), multiProto: (*MultiV2)(nil),
+		newLeaf:  func(m, c string) error { return &LeafV2{m, c} },
+		newWrap:  func(m, c string, cause error) error { return &WrapV2{m, c, cause} },
+		newMulti: func(m, c string, causes []error) error { return &MultiV2{m, c, causes} }},
+	{label: "V3", leafProto: (*LeafV3)(nil), wrapProto: (*WrapV3)(nil), multiProto: (*MultiV3)(nil),
+		newLeaf:  func(m, c string) error { return &LeafV3{m, c} },
+		newWrap:  func(m, c string, cause error) error { return &WrapV3{m, c, cause} },
+		newMulti: func(m, c string, causes []error) error { return &MultiV3{m, c, causes} }},
 }
 
 // altT is the "other rename": a different new name for name0.
-var altT = &version{"Alt", (*LeafAlt)(nil), (*WrapAlt)(nil),
-	func(m string) error { return &LeafAlt{m} }, func(m string, c error) error { return &WrapAlt{m, c} }}
+var altT = &version{label: "Alt", leafProto: (*LeafAlt)(nil), wrapProto: (*WrapAlt)(nil), multiProto: (*MultiAlt)(nil),
+	newLeaf:  func(m, c string) error { return &LeafAlt{m, c} },
+	newWrap:  func(m, c string, cause error) error { return &WrapAlt{m, c, cause} },
+	newMulti: func(m, c string, causes []error) error { return &MultiAlt{m, c, causes} }}
 
 // chainU is the unrelated lineage: every knowing process has U at its
 // second name.
 var chainU = []*version{
-	{"U0", (*ULeaf0)(nil), (*UWrap0)(nil),
-		func(m string) error { return &ULeaf0{m} }, func(m string, c error) error { return &UWrap0{m, c} }},
-	{"U1", (*ULeaf1)(nil), (*UWrap1)(nil),
-		func(m string) error { return &ULeaf1{m} }, func(m string, c error) error { return &UWrap1{m, c} }},
+	{label: "U0", leafProto: (*ULeaf0)(nil), wrapProto: (*UWrap0)(nil), multiProto: (*UMulti0)(nil),
+		newLeaf:  func(m, c string) error { return &ULeaf0{m, c} },
+		newWrap:  func(m, c string, cause error) error { return &UWrap0{m, c, cause} },
+		newMulti: func(m, c string, causes []error) error { return &UMulti0{m, c, causes} }},
+	{label: "U1", leafProto: (*ULeaf1)(nil), wrapProto: (*UWrap1)(nil), multiProto: (*UMulti1)(nil),
+		newLeaf:  func(m, c string) error { return &ULeaf1{m, c} },
+		newWrap:  func(m, c string, cause error) error { return &UWrap1{m, c, cause} },
+		newMulti: func(m, c string, causes []error) error { return &UMulti1{m, c, causes} }},
+}
+
+// genericChain is the lineage GLeafV0[P] -> GLeafV1[P] (and GWrap) for one
+// type argument.
+func genericChain[P any]() []*version {
+	return []*version{
+		{label: "V0", leafProto: (*GLeafV0[P])(nil), wrapProto: (*GWrapV0[P])(nil),
+			newLeaf: func(m, c string) error { return &GLeafV0[P]{Msg: m, Code: c} },
+			newWrap: func(m, c string, cause error) error { return &GWrapV0[P]{Msg: m, Code: c, Cause: cause} }},
+		{label: "V1", leafProto: (*GLeafV1[P])(nil), wrapProto: (*GWrapV1[P])(nil),
+			newLeaf: func(m, c string) error { return &GLeafV1[P]{Msg: m, Code: c} },
+			newWrap: func(m, c string, cause error) error { return &GWrapV1[P]{Msg: m, Code: c, Cause: cause} }},
+	}
+}
+
+// lineage is one logical type with its successive names.
+type lineage struct {
+	// name is "" for the plain lineage T, else "generic-<type argument>".
+	name  string
+	chain []*version
+	alt   *version // nil: no differently renamed version
+	kinds []string
+}
+
+func (l *lineage) maxN() int { return len(l.chain) - 1 }
+
+// versions lists every version of the lineage.
+func (l *lineage) versions() []*version {
+	vs := append([]*version{}, l.chain...)
+	if l.alt != nil {
+		vs = append(vs, l.alt)
+	}
+	return vs
+}
+
+var (
+	plainKinds   = []string{"leaf", "wrapper", "wrapped-leaf", "both", "multi"}
+	genericKinds = []string{"leaf", "wrapper", "wrapped-leaf", "both"}
+
+	plainLineage = &lineage{name: "", chain: chainT, alt: altT, kinds: plainKinds}
+	lineages     = []*lineage{
+		plainLineage,
+		{name: "generic-int", chain: genericChain[int](), kinds: genericKinds},
+		{name: "generic-named", chain: genericChain[Payload](), kinds: genericKinds},
+		{name: "generic-pointer", chain: genericChain[*Payload](), kinds: genericKinds},
+	}
+)
+
+func lineageByName(name string) *lineage {
+	for _, l := range lineages {
+		if l.name == name {
+			return l
+		}
+	}
+	return nil
 }
 
 // pkgPath is the package path of all the types above.
 var pkgPath = reflect.TypeOf(LeafV0{}).PkgPath()
 
-// modelKey is the reference model of a type key: "<pkgpath>/<type name>".
-// (Written from the documentation of RegisterTypeMigration, not by calling
-// the library.)
+// modelKey is the reference model of a type key: "<pkgpath>/<type name>",
+// the type name being reflect.TypeOf(err).String() verbatim. (Written from
+// the documentation of RegisterTypeMigration, not by calling the library.)
 func modelKey(typeName string) string { return pkgPath + "/" + typeName }
